@@ -7,6 +7,8 @@ PROP = dict(
              timeout=dict(quick=300, thorough=1500), workers=6),
         # sync.Once replaced by a nil check: two initialisations, a caller sends with a superseded client (non-vacuity)
         dict(module="MCClientResp", cfg="MCClientResp_asbuilt.cfg", expect_violation="InvOneClient", timeout=300, workers=2),
+        # response wrappers recycled through a pool when the reader returns: a kept response shows another call (non-vacuity)
+        dict(module="MCClientResp", cfg="MCClientResp_asbuilt_pool.cfg", expect_violation="InvRetained", timeout=300, workers=2),
     ],
     gen=dict(module="GenClientResp", cfg=dict(quick="GenClientResp_quick.cfg", thorough="GenClientResp_thorough.cfg"), timeout=300),
     level_text="ClientResp states consumer selection declaratively (PickAllowed: the consumer registered for the response's media type, "
@@ -27,7 +29,10 @@ PROP = dict(
     rule="case = one Submit with (registry subset of 5 types, catch-all yes/no, default type, Content-Type form x type, status, "
          "operation/transport client, operation context in {nil, Background itself, TODO, derived with value, derived cancelled} x "
          "runtime context in {nil, default, value, cancelled, short deadline}) - exhaustive over registry x catch-all x default x "
-         "header and over the client/context lattice, plus seeded random - or one concurrent run: N callers on a fresh Runtime under a TLC-exported gate "
+         "header (every spelling of DefaultMediaType - plain, with parameters, upper case - when the header is absent/empty) and over "
+         "the client/context lattice, plus seeded random; sequences of 2/3/6 calls whose readers KEEP the ClientResponse and ask it "
+         "again after the later calls; the wire-level client lattice (operation client none / bare / own Transport / own Jar / both "
+         "x runtime RoundTripper marker x runtime cookie jar, against a real httptest server - or one concurrent run: N callers on a fresh Runtime under a TLC-exported gate "
          "schedule (all 1700 interleavings of 3 gates for N=2,3), a barrier inside the params writers or inside RoundTrip, or free "
          "running (N in {2,8,64}, GOMAXPROCS in {1,2,4,16}). Non-trivial: header not plain or no operation client / any concurrent "
          "case; distinct by hash of the case.",
